@@ -214,7 +214,10 @@ fn op_send(line: &str, args: &[SExp]) -> CaseResult {
     // payload delivered by a fragmenting blocking source
     let chunks: Vec<crate::sources::Ev> = payload.chunks(7).map(|c| crate::sources::Ev::Data(c.to_vec())).collect();
     *req.payload_mut() = IppPayload::new(crate::sources::Script::new(chunks, false));
-    let server = Server::start(vec![reply.clone()]);
+    // history in this process first: a differently configured client of the same kind (no extra headers, no credentials,
+    // a long timeout) makes one exchange with the same server; what it was configured with must not reach the real one
+    let prime_reply = Reply::ok(IppRequestResponse::new_response(IppVersion::v1_1(), StatusCode::SuccessfulOk, 1).to_bytes().to_vec());
+    let server = Server::start(vec![prime_reply, reply.clone()]);
     let uri: Uri = match format!("ipp://127.0.0.1:{}{}", server.port, pathq).parse() {
         Ok(u) => u,
         Err(_) => {
@@ -222,6 +225,21 @@ fn op_send(line: &str, args: &[SExp]) -> CaseResult {
             return badarg(line, "uri");
         }
     };
+    {
+        let prime_cfg = Cfg { headers: vec![], auth: None, timeout_ms: Some(20_000) };
+        let prime_req = IppRequestResponse::new(IppVersion::v1_1(), Operation::GetPrinterAttributes, Some(uri.clone()));
+        let primed = match client.as_str() {
+            "blocking" => Some(send_blocking(uri.clone(), &prime_cfg, prime_req)),
+            "async" => Some(send_async(uri.clone(), &prime_cfg, prime_req)),
+            _ => None,
+        };
+        if let Some(o) = primed {
+            if !matches!(o, SendOutcome::Ok(..)) {
+                server.finish();
+                return CaseResult { line: line.into(), result: "(priming-failed)".into(), oracle: Some(format!("the preceding plain exchange with the same server failed: {}", show_outcome(&o))), class: "priming".into() };
+            }
+        }
+    }
     let t0 = std::time::Instant::now();
     let outcome = match client.as_str() {
         "blocking" => send_blocking(uri, &cfg, req),
@@ -232,7 +250,10 @@ fn op_send(line: &str, args: &[SExp]) -> CaseResult {
         }
     };
     let elapsed = t0.elapsed();
-    let caps = server.finish();
+    let mut caps = server.finish();
+    if !caps.is_empty() {
+        caps.remove(0); // the priming exchange
+    }
     // effective line: the request message with its listing
     let mut eff = format!("send {} {} {}", client, show_msg(&listing), hex(&payload));
     for a in &args[3..] {
